@@ -85,6 +85,12 @@ ASSUMPTIONS = [
 TOL = 1e-9  # comparison with the exact oracle (library error is ~1e-14 on this data)
 MATCH = 1e-8  # tol.merge: endpoint matching for closedness
 GAP = 1e-4  # vertices are exactly on the plane or at least this far away
+NEAR_GAP = 1e-7  # ... except in the near-vertex / small-scale classes: 10 x tol.merge
+PATH_MERGE = 1e-5  # tol_path.merge: absolute grid lines_to_path merges section endpoints on
+SMALL_SEXP = -17  # small-scale class: integer vertices x 2**-17 (one unit = 7.6e-6 < PATH_MERGE)
+# non-unit normal classes: integer normal x 2**e.  The library compares n.(p-o) with tol.merge
+# without unitizing, i.e. its on-plane band is tol.merge/|n|
+NORMAL_EXPS = (-27, -33, 16)
 
 ENGINES = ("earcut", "manifold", "triangle")
 
@@ -273,6 +279,23 @@ def plane_of_class(rng, V, F, cls):
         if not any(n):
             return None
         return _gcd_reduce(n), tuple(Fr(int(c)) for c in v)
+    if cls == "near_vertex":
+        # a few microns from a vertex (or from both ends of an edge), on either side: further than
+        # 10 x tol.merge, so the vertex is NOT on the plane, but inside the 1e-5 grid of the path code
+        a = pick_v()
+        if int(rng.integers(2)):
+            E = _edges(F)
+            a, b = E[int(rng.integers(len(E)))]
+            n = _icross(V[b] - V[a], _rand_n(rng))
+            if not any(n):
+                return None
+            n = _gcd_reduce(n)
+        else:
+            n = _rand_n(rng)
+        if sum(c * c for c in n) > 75:
+            return None
+        t = Fr(int(rng.choice([-1, 1])), 2 ** int(rng.integers(20, 23)))
+        return n, tuple(Fr(int(V[a][i])) + n[i] * t for i in range(3))
     if cls == "edge_mid":
         # through the midpoints of two edges of one face and a random direction: pattern --+ / -++
         f = F[int(rng.integers(nf))]
@@ -286,7 +309,7 @@ def plane_of_class(rng, V, F, cls):
     raise ValueError(cls)
 
 
-SPECIAL = ("vertex1", "vertex2", "vertex3", "edge", "face+", "face-", "vertex_cross", "edge_mid")
+SPECIAL = ("vertex1", "vertex2", "vertex3", "edge", "face+", "face-", "vertex_cross", "edge_mid", "near_vertex")
 
 
 def plane_record(n, o, cls):
@@ -354,10 +377,13 @@ def mesh_catalogue(run):
 # ---------------------------------------------------------------------------- case plumbing
 
 
-def make_case(op, tag, V, F, planes, unit=True, **opts):
+def make_case(op, tag, V, F, planes, unit=True, sexp=0, **opts):
+    mesh = {"tag": tag, "V": np.asarray(V).tolist(), "F": np.asarray(F).tolist()}
+    if sexp:
+        mesh["sexp"] = int(sexp)  # the library sees the vertices x 2**sexp (exact in float64)
     return {
         "op": op,
-        "mesh": {"tag": tag, "V": np.asarray(V).tolist(), "F": np.asarray(F).tolist()},
+        "mesh": mesh,
         "planes": planes,
         "unit": bool(unit),
         "opts": opts,
@@ -377,15 +403,40 @@ class Ctx:
         roll = int(case["opts"].get("roll", 0))
         if roll:
             self.F = np.roll(self.F, roll, axis=1)
+        # the oracle and the judges work in integer units; the library is given V * s and
+        # planes with origin * s, its outputs are divided by s (a power of two: exact)
+        self.sexp = int(case["mesh"].get("sexp", 0))
+        self.s = 2.0 ** self.sexp
         self.Vf = self.V.astype(np.float64)
         self.planes = [plane_from_record(r) for r in case["planes"]]
         self.unit = case["unit"]
         self.opts = case["opts"]
+        # integer normal x 2**nexp handed to the library (never unitized by the harness)
+        self.nexp = int(case["opts"].get("nexp", 0))
+        self.near = any(r.get("cls") == "near_vertex" for r in case["planes"])
+        # smallest allowed distance (absolute, as the library sees it) of an off-plane vertex
+        self.gap_abs = NEAR_GAP if (self.near or self.sexp) else GAP
+        self.tol = TOL / self.s  # TOL absolute, expressed in integer units
         self.closed = topo_closed(self.F)
         self._mp = {}
+        self.shared = None  # mesh object shared by the steps of a history
+        self.hist = None  # relation of this step to the earlier ones (key part)
+        self.parent = None  # (history case, step index) for the witness
+        self.coarse = None  # (extra key parts, symptom): input classes with ONE known mechanism
 
     def mesh(self):
-        return G.to_trimesh(self.V, self.F)
+        if self.shared is not None:
+            return self.shared
+        return G.to_trimesh(self.Vf * self.s if self.sexp else self.V, self.F)
+
+    def pf(self, pl):
+        """(normal, origin) floats as handed to the library."""
+        if self.nexp:
+            n = np.array([float(c) for c in pl.n], dtype=np.float64) * 2.0 ** self.nexp
+            o = np.array([float(c) for c in pl.o], dtype=np.float64) * self.s
+            return n, o
+        n, o = plane_floats(pl, self.unit)
+        return n, o * self.s
 
     def mp(self, i=0):
         if i not in self._mp:
@@ -394,7 +445,7 @@ class Ctx:
 
     def placement(self):
         """Input class from exact facts (worst over the planes)."""
-        rank = {"general": 0, "vertex": 1, "edge": 2, "coplanar": 3}
+        rank = {"general": 0, "near_vertex": 1, "vertex": 2, "edge": 3, "coplanar": 4}
         best = "general"
         for i in range(len(self.planes)):
             mp = self.mp(i)
@@ -404,6 +455,8 @@ class Ctx:
                 p = "edge"
             elif mp.has_vertex_on_plane():
                 p = "vertex"
+            elif self.near and mp.min_offplane_distance() < GAP:
+                p = "near_vertex"
             else:
                 p = "general"
             if rank[p] > rank[best]:
@@ -434,11 +487,23 @@ class Ctx:
 
     def key(self, route, sym, **extra):
         parts = ["op=%s" % self.op, "route=%s" % route]
+        if self.coarse is not None:
+            # an input class in which one mechanism of the library is known to act (the class is
+            # computed exactly by the oracle): one key per route, the fine symptom goes to the witness
+            kx, csym = self.coarse
+            parts += ["%s=%s" % (k, v) for k, v in sorted(kx.items())]
+            return " ".join(parts + ["sym=%s" % csym])
         if sym == "repeated_index_face":
             # produced by one incomplete filter whatever the placement / engine
             return " ".join(parts + ["sym=%s" % sym])
         for k, v in sorted(extra.items()):
             parts.append("%s=%s" % (k, v))
+        if self.hist:
+            parts.append("hist=%s" % self.hist)
+        if self.sexp:
+            parts.append("scale=small")
+        if self.nexp:
+            parts.append("normal_length=%s" % ("tiny" if self.nexp < 0 else "huge"))
         if extra.get("section_graph") != "branching":
             # (a cap whose outline branches - figure-eight through a mesh vertex, in-plane edge
             # fans - is one input class of its own: polygon recovery walks the outline graph)
@@ -448,15 +513,27 @@ class Ctx:
 
 
 def gap_ok(ctx):
-    """Vertices exactly on each plane or >= GAP away; float signs agree with the exact ones."""
+    """
+    Vertices exactly on each plane or >= the class gap away (absolute, as the library sees the
+    mesh); the float signs computed with the code's own tol.merge agree with the exact ones.  A normal of tiny length: every vertex must be clearly inside (<= tol.merge/10)
+    or clearly outside (>= 10 tol.merge) the band the library's un-normalised dot product gives;
+    when some off-plane vertex is inside, the case belongs to the input class band=swallows_vertices.
+    """
     from trimesh.constants import tol
 
     for i, pl in enumerate(ctx.planes):
         mp = ctx.mp(i)
-        if mp.min_offplane_distance() < GAP:
+        if mp.min_offplane_distance() * ctx.s < ctx.gap_abs:
             return False
-        n, o = plane_floats(pl, ctx.unit)
-        dots = np.dot(ctx.Vf - o, n)
+        if ctx.nexp < 0:
+            a = [abs(float(d)) * 2.0 ** ctx.nexp for d in mp.dv if d != 0]
+            if any(tol.merge / 10 < x < tol.merge * 10 for x in a):
+                return False
+            if any(x <= tol.merge / 10 for x in a):
+                ctx.coarse = ({"normal_length": "tiny", "band": "swallows_vertices"}, "differs_from_exact")
+            continue
+        n, o = ctx.pf(pl)
+        dots = np.dot(ctx.Vf * ctx.s - o, n)
         s = np.zeros(len(dots), dtype=int)
         s[dots < -tol.merge] = -1
         s[dots > tol.merge] = 1
@@ -473,7 +550,13 @@ def record_patterns(run, ctx, kind, faces=None, plane_index=0):
 
 def _viol(run, ctx, route, sym, what, **obs):
     extra = obs.pop("_key", {})
-    case = dict(ctx.case)
+    if ctx.parent is not None:
+        case = dict(ctx.parent[0])
+        obs["step"] = ctx.parent[1]
+    else:
+        case = dict(ctx.case)
+    if ctx.coarse is not None:
+        obs["fine_symptom"] = sym
     case["observed"] = obs
     run.violation(ctx.key(route, sym, **extra), what, case)
 
@@ -489,8 +572,9 @@ def judge_segments(run, ctx, route, lines, face_index, plane_index=0, faces=None
     mp = ctx.mp(plane_index) if plane is None else C.MeshPlane(ctx.V, ctx.F, plane)
     pl = mp.plane
     ok = True
-    lines = np.asarray(lines, dtype=np.float64)
+    lines = np.asarray(lines, dtype=np.float64) / ctx.s  # integer units
     face_index = np.asarray(face_index)
+    tol_u = ctx.tol
     if lines.ndim != 3 or lines.shape[1:] != (2, 3) or face_index.shape != (len(lines),):
         _viol(run, ctx, route, "bad_shape", "section output has the wrong shape",
               lines_shape=list(lines.shape), index_shape=list(face_index.shape))
@@ -507,13 +591,13 @@ def judge_segments(run, ctx, route, lines, face_index, plane_index=0, faces=None
     if len(lines):
         # soundness: on the plane, on the reported triangle
         dpl = np.abs((lines.reshape(-1, 3) - of) @ nf)
-        if dpl.max() > TOL:
+        if dpl.max() > tol_u:
             ok = False
             _viol(run, ctx, route, "off_plane", "a section endpoint does not lie on the plane", max_dist=float(dpl.max()))
         T = ctx.Vf[ctx.F[face_index]]
         P = lines.reshape(-1, 3)
         dtri = tri_dist(P, np.repeat(T[:, 0], 2, axis=0), np.repeat(T[:, 1], 2, axis=0), np.repeat(T[:, 2], 2, axis=0))
-        if dtri.max() > TOL:
+        if dtri.max() > tol_u:
             ok = False
             _viol(run, ctx, route, "off_reported_face", "a section endpoint does not lie on the triangle reported as its source",
                   max_dist=float(dtri.max()), face=int(face_index[int(dtri.argmax()) // 2]))
@@ -558,29 +642,29 @@ def judge_segments(run, ctx, route, lines, face_index, plane_index=0, faces=None
             )
             if e > worst:
                 worst, worst_face = float(e), fi
-    if worst > TOL:
+    if worst > tol_u:
         ok = False
         _viol(run, ctx, route, "wrong_segment", "the segment reported for a crossed triangle differs from the exact intersection",
               face=worst_face, pattern=str(mp.pattern(worst_face)), err=worst,
               expected=[C.to_float(x) for x in expected[worst_face]], got=lines[got[worst_face][0]].tolist(),
               _key={"pattern": mp.pattern(worst_face)[0]})
     got_len = float(np.linalg.norm(lines[:, 0] - lines[:, 1], axis=1).sum()) if len(lines) else 0.0
-    if abs(got_len - exp_len) > TOL * max(1.0, exp_len) * 10:
+    if abs(got_len - exp_len) > tol_u * max(1.0, exp_len) * 10:
         ok = False
         _viol(run, ctx, route, "total_length", "total section length differs from the exact intersection length",
               got=got_len, expected=exp_len)
     # closedness
     if ctx.closed and faces is None and len(lines):
         general = not mp.has_vertex_on_plane()
-        if general or _closed_pairs(np.array([[C.to_float(p), C.to_float(q)] for p, q in expected.values()])):
+        if general or _closed_pairs(np.array([[C.to_float(p), C.to_float(q)] for p, q in expected.values()]), MATCH / ctx.s):
             run.count("sections_closedness_checked")
-            if not _closed_pairs(lines):
+            if not _closed_pairs(lines, MATCH / ctx.s):
                 ok = False
                 _viol(run, ctx, route, "open_loop", "section of a watertight mesh has an endpoint matched an odd number of times")
     return ok
 
 
-def _closed_pairs(lines):
+def _closed_pairs(lines, r=MATCH):
     from scipy.spatial import cKDTree
 
     lines = np.asarray(lines, dtype=np.float64)
@@ -588,29 +672,59 @@ def _closed_pairs(lines):
         return True
     P = lines.reshape(-1, 3)
     tree = cKDTree(P)
-    counts = np.array([len(x) for x in tree.query_ball_point(P, r=MATCH)])
+    counts = np.array([len(x) for x in tree.query_ball_point(P, r=r)])
     return bool((counts % 2 == 0).all())
+
+
+def _subset_arg(ctx, idx, nfaces):
+    """A face subset in the presentation the case asks for: integer indices or a boolean mask."""
+    if ctx.opts.get("subset_as") == "mask":
+        mask = np.zeros(nfaces, dtype=bool)
+        mask[np.asarray(idx, dtype=np.int64)] = True
+        return mask
+    return np.array(idx, dtype=np.int64)
+
+
+def _mask_class(ctx):
+    """
+    A boolean mask selects the faces it marks (numpy semantics; slice_faces_plane honours them).
+    The subset judged is the sorted marked faces; the documented type is integer indices, so a
+    refusal (exception) is accepted, a section / slice of OTHER faces is not.
+    """
+    if ctx.opts.get("subset_as") == "mask" and ctx.coarse is None:
+        ctx.coarse = ({"subset": "bool_mask"}, "not_the_masked_subset")
+        return True
+    return ctx.opts.get("subset_as") == "mask"
 
 
 def op_mesh_plane(run, ctx):
     from trimesh import intersections
 
     m = ctx.mesh()
-    n, o = plane_floats(ctx.planes[0], ctx.unit)
+    n, o = ctx.pf(ctx.planes[0])
     local = ctx.opts.get("local")
     kw = {}
+    masked = False
     if local is not None:
-        kw["local_faces"] = np.array(local, dtype=np.int64)
+        kw["local_faces"] = _subset_arg(ctx, local, len(ctx.F))
+        masked = _mask_class(ctx)
+        if masked:
+            local = sorted(local)
     route = "mesh_plane" + (":local_faces" if local is not None else "")
     try:
         lines, idx = intersections.mesh_plane(m, plane_normal=n, plane_origin=o, return_faces=True, **kw)
         only = intersections.mesh_plane(m, plane_normal=n, plane_origin=o, **kw)
     except Exception as e:  # noqa
+        if masked:
+            run.count("bool_mask_refused(accepted)")
+            return
         _viol(run, ctx, route, "raised:" + type(e).__name__, "mesh_plane raised on a valid mesh/plane", error=repr(e)[:300])
         return
     if np.shape(only) != np.shape(lines) or not np.array_equal(np.asarray(only), np.asarray(lines)):
         _viol(run, ctx, route, "return_faces_changes_lines", "mesh_plane returns different lines with and without return_faces")
     record_patterns(run, ctx, "section_pattern_rot", faces=local)
+    if masked:
+        run.count("face_subset_as_bool_mask")
     judge_segments(run, ctx, route, lines, idx, faces=local)
 
 
@@ -623,25 +737,70 @@ def _path_points(path):
 
 def op_section(run, ctx):
     m = ctx.mesh()
-    n, o = plane_floats(ctx.planes[0], ctx.unit)
+    n, o = ctx.pf(ctx.planes[0])
     mp = ctx.mp(0)
     route = "Trimesh.section"
+    local = ctx.opts.get("local")
+    kw = {}
+    masked = False
+    if local is not None:
+        route += ":local_faces"
+        kw["local_faces"] = _subset_arg(ctx, local, len(ctx.F))
+        masked = _mask_class(ctx)
+        if masked:
+            local = sorted(local)
     try:
-        path = m.section(plane_normal=n, plane_origin=o)
+        path = m.section(plane_normal=n, plane_origin=o, **kw)
     except Exception as e:  # noqa
+        if masked:
+            run.count("bool_mask_refused(accepted)")
+            return
         _viol(run, ctx, route, "raised:" + type(e).__name__, "Trimesh.section raised", error=repr(e)[:300])
         return
-    expected = mp.expected_segments()
+    expected = mp.expected_segments(local)
     edge_in_plane = mp.has_edge_in_plane()
     if path is None:
         if not edge_in_plane and expected:
             _viol(run, ctx, route, "none_but_crossed", "section returned None although the plane crosses triangles",
                   n_expected=len(expected))
         return
-    judge_path(run, ctx, route, path, mp, expected, edge_in_plane, to3d=None)
+    if not edge_in_plane and not expected:
+        _viol(run, ctx, route, "path_but_not_crossed", "section returned a path although the plane crosses none of the faces",
+              n_vertices=int(len(path.vertices)))
+        return
+    judge_path(run, ctx, route, path, mp, expected, edge_in_plane, to3d=None, faces=local)
 
 
-def judge_path(run, ctx, route, path, mp, expected, edge_in_plane, to3d):
+def path_zone(ctx, expected):
+    """
+    Input class of a section that is turned into a Path, from the exact endpoints (absolute
+    lengths, as the library sees them).  Only used for the near-vertex / small-scale classes.
+      separated          no two distinct endpoints within 4 x tol_path.merge: nothing can be merged,
+                         the path must be the section to TOL (what all other classes are held to)
+      within_tolerance   endpoints may be merged on the 1e-5 grid, the section is >= 1e3 grid cells
+                         wide: deviations of 2 x tol_path.merge are the documented path precision
+      below_path_merge   the whole section is <= 10 grid cells wide: the grid is not a tolerance any
+                         more (a section through a mesh of that size, or a corner cut a few microns deep)
+      gray               in between: not judged
+    """
+    from scipy.spatial import cKDTree
+
+    pts = sorted({tuple(p) for seg in expected.values() for p in seg})
+    if len(pts) < 2:
+        return "separated"
+    P = np.array([C.to_float(p) for p in pts]) * ctx.s
+    extent = float(np.ptp(P, axis=0).max())
+    dmin = float(cKDTree(P).query(P, k=2)[0][:, 1].min())
+    if dmin > 4 * PATH_MERGE:
+        return "separated"
+    if extent >= 1e3 * PATH_MERGE:
+        return "within_tolerance"
+    if extent <= 10 * PATH_MERGE:
+        return "below_path_merge"
+    return "gray"
+
+
+def judge_path(run, ctx, route, path, mp, expected, edge_in_plane, to3d, faces=None):
     pl = mp.plane
     nf = np.array([float(c) for c in pl.n])
     nf /= np.linalg.norm(nf)
@@ -651,20 +810,43 @@ def judge_path(run, ctx, route, path, mp, expected, edge_in_plane, to3d):
         verts3 = (np.column_stack([verts, np.zeros(len(verts)), np.ones(len(verts))]) @ np.asarray(to3d).T)[:, :3]
     else:
         verts3 = verts
+    verts3 = verts3 / ctx.s  # integer units
+    tol_u = ctx.tol
     used = np.unique(np.concatenate([e.points for e in path.entities])) if len(path.entities) else np.zeros(0, dtype=int)
     P = verts3[used]
     if len(P) == 0:
         _viol(run, ctx, route, "empty_path", "a path object without geometry was returned instead of None")
         return
+    Fsrc = ctx.F if faces is None else ctx.F[np.asarray(faces, dtype=np.int64)]
     d = np.abs((P - of) @ nf)
-    if d.max() > TOL:
+    if d.max() > tol_u:
         _viol(run, ctx, route, "off_plane", "a path vertex does not lie on the section plane", max_dist=float(d.max()))
-    ds, _ = surface_dist(P, ctx.Vf, ctx.F)
-    if ds.max() > TOL:
+    ds, _ = surface_dist(P, ctx.Vf, Fsrc)
+    if ds.max() > tol_u:
         _viol(run, ctx, route, "off_surface", "a path vertex does not lie on the mesh surface", max_dist=float(ds.max()))
     if edge_in_plane:
         return
-    # every polyline piece lies on the surface too (midpoints)
+    # the polylines are the section: every piece on the surface (midpoints), total length, closedness
+    chord_tol, merged = tol_u, False
+    restore = ctx.coarse
+    if ctx.near or ctx.sexp:
+        zone = path_zone(ctx, expected)
+        run.state("path_zone", zone)
+        if zone == "gray":
+            run.count("path_checks_skipped(section between 10 and 1000 path-merge cells wide)")
+            return
+        if zone == "within_tolerance":
+            chord_tol = 2 * PATH_MERGE / ctx.s
+            merged = True
+        elif zone == "below_path_merge" and ctx.coarse is None:
+            ctx.coarse = ({"section_size": "below_path_merge"}, "path_not_the_section")
+    try:
+        _judge_polylines(run, ctx, route, path, mp, expected, verts3, Fsrc, faces, chord_tol, merged)
+    finally:
+        ctx.coarse = restore
+
+
+def _judge_polylines(run, ctx, route, path, mp, expected, verts3, Fsrc, faces, chord_tol, merged):
     mids = []
     plen = 0.0
     for e in path.entities:
@@ -672,21 +854,44 @@ def judge_path(run, ctx, route, path, mp, expected, edge_in_plane, to3d):
         mids.append((pts[:-1] + pts[1:]) / 2.0)
         plen += float(np.linalg.norm(pts[1:] - pts[:-1], axis=1).sum())
     mids = np.vstack(mids)
-    dm, _ = surface_dist(mids, ctx.Vf, ctx.F)
-    if len(dm) and dm.max() > TOL:
-        _viol(run, ctx, route, "chord_off_surface", "a path segment leaves the mesh surface", max_dist=float(dm.max()))
+    dm, _ = surface_dist(mids, ctx.Vf, Fsrc)
+    if len(dm) and dm.max() > chord_tol:
+        _viol(run, ctx, route, "chord_off_surface", "a path segment leaves the mesh surface", max_dist=float(dm.max()) * ctx.s)
+        if ctx.coarse is not None:
+            return
+    if merged:
+        # endpoints closer than the path grid may have been merged: loops / slivers narrower than
+        # the grid legitimately collapse (doubled edges are dropped), so length and closedness of the
+        # Path are not judged here (the raw segments of the same planes are, exactly); what is:
+        # the path covers the whole exact section to the path precision
+        A = np.vstack([verts3[e.points][:-1] for e in path.entities])
+        B = np.vstack([verts3[e.points][1:] for e in path.entities])
+        Q = []
+        for p, q in expected.values():
+            p, q = np.array(C.to_float(p)), np.array(C.to_float(q))
+            Q += [p, q, (p + q) / 2.0]
+        Q = np.array(Q)
+        k, msrc = len(Q), len(A)
+        dq = _seg_dist(np.repeat(Q, msrc, axis=0), np.tile(A, (k, 1)), np.tile(B, (k, 1))).reshape(k, msrc).min(axis=1)
+        run.count("path_coverage_checked(path precision)")
+        if dq.max() > chord_tol:
+            _viol(run, ctx, route, "section_not_covered", "a piece of the exact section is further from the path than the path precision",
+                  max_dist=float(dq.max()) * ctx.s)
+        return
     segs = {}
     for fi, (p, q) in expected.items():
         a, b = tuple(p), tuple(q)
         segs[frozenset((a, b))] = float(np.linalg.norm(np.array(C.to_float(p)) - np.array(C.to_float(q))))
     exp_len = sum(segs.values())  # coincident segments of overlapping sheets counted once
     if len(segs) == len(expected):
-        if abs(plen - exp_len) > 10 * TOL * max(1.0, exp_len):
+        if abs(plen - exp_len) > 10 * ctx.tol * max(1.0, exp_len):
             _viol(run, ctx, route, "total_length", "path length differs from the exact intersection length",
-                  got=plen, expected=exp_len)
+                  got=plen * ctx.s, expected=exp_len * ctx.s)
+            if ctx.coarse is not None:
+                return
     else:
         run.count("path_length_skipped(coincident segments)")
-    if ctx.closed and not mp.has_vertex_on_plane() and ctx.mclass != "overlapping":
+    if ctx.closed and faces is None and not mp.has_vertex_on_plane() and ctx.mclass != "overlapping":
         # (sheets of self-intersecting shells cross each other inside the plane: outside "general position")
         run.count("paths_closedness_checked")
         try:
@@ -711,7 +916,7 @@ INT_LENGTH_NORMALS = [
 
 
 def op_multiplane(run, ctx):
-    """opts: heights = list of 'num/den' along the unit normal n/|n| (|n| an integer)."""
+    """opts: heights = list of 'num/den' (integer units) along the unit normal n/|n| (|n| an integer)."""
     from trimesh import intersections
 
     m = ctx.mesh()
@@ -719,21 +924,21 @@ def op_multiplane(run, ctx):
     L = _L(base.n)
     assert L
     heights = [Fr(h) for h in ctx.opts["heights"]]
-    hf = np.array([float(h) for h in heights], dtype=np.float64)
-    n, o = plane_floats(base, ctx.unit)
+    hf = np.array([float(h) for h in heights], dtype=np.float64) * ctx.s
+    n, o = ctx.pf(base)
     planes = [C.Plane(base.n, tuple(base.o[i] + base.n[i] * h / L for i in range(3))) for h in heights]
     # gap / sign agreement for every height (evaluated the way the code does it)
     from trimesh.constants import tol
 
     un = np.array([float(c) for c in base.n]) / L
-    vd = np.dot(un, (ctx.Vf - o).T)
+    vd = np.dot(un, (ctx.Vf * ctx.s - o).T)
     usable = []
     for h, hfl, pl in zip(heights, hf, planes):
         mp = C.MeshPlane(ctx.V, ctx.F, pl)
         s = np.zeros(len(vd), dtype=int)
         s[vd - hfl < -tol.merge] = -1
         s[vd - hfl > tol.merge] = 1
-        usable.append(mp.min_offplane_distance() >= GAP and s.tolist() == mp.sv)
+        usable.append(mp.min_offplane_distance() * ctx.s >= ctx.gap_abs and s.tolist() == mp.sv)
     route = "mesh_multiplane"
     try:
         segs, T, fidx = intersections.mesh_multiplane(m, plane_origin=o, plane_normal=n, heights=hf)
@@ -863,20 +1068,21 @@ def _call_slice(ctx, m, planes, route, face_index=None, cap=False, engine=None):
     """Run one of the slicing entry points; returns (vertices, faces)."""
     from trimesh import intersections
 
-    ns, os_ = zip(*[plane_floats(pl, ctx.unit) for pl in planes])
+    assert not ctx.sexp  # the small-scale class is for sections only
+    ns, os_ = zip(*[ctx.pf(pl) for pl in planes])
     if route == "slice_faces_plane" or route == "slice_faces_plane:cached_dots":
         assert len(planes) == 1
         kw = {}
         if route.endswith("cached_dots"):
             kw["cached_dots"] = np.dot(np.asarray(m.vertices) - os_[0], ns[0])
         if face_index is not None:
-            kw["face_index"] = np.array(face_index, dtype=np.int64)
+            kw["face_index"] = _subset_arg(ctx, face_index, len(ctx.F))
         v, f, _ = intersections.slice_faces_plane(np.asarray(m.vertices).copy(), np.asarray(m.faces).copy(),
                                                   plane_normal=ns[0], plane_origin=os_[0], **kw)
         return np.asarray(v), np.asarray(f)
     kw = {}
     if face_index is not None:
-        kw["face_index"] = np.array(face_index, dtype=np.int64)
+        kw["face_index"] = _subset_arg(ctx, face_index, len(ctx.F))
     if engine is not None:
         kw["engine"] = engine
     if len(planes) == 1:
@@ -891,6 +1097,7 @@ def op_slice(run, ctx):
     m = ctx.mesh()
     route = ctx.opts.get("route", "slice_plane")
     sub = ctx.opts.get("face_index")
+    masked = sub is not None and _mask_class(ctx)
     pl = ctx.planes[0]
     record_patterns(run, ctx, "slice_pattern_rot", faces=sub)
     res = {}
@@ -899,6 +1106,9 @@ def op_slice(run, ctx):
         try:
             RV, RF = _call_slice(ctx, m, [p], route, face_index=sub)
         except Exception as e:  # noqa
+            if masked:
+                run.count("bool_mask_refused(accepted)")
+                return
             _viol(run, ctx, route, "raised:" + type(e).__name__, "slicing raised on a valid mesh/plane", error=repr(e)[:300], side=label,
                   _key={"subset": "yes" if sub is not None else "no"})
             return
@@ -949,7 +1159,7 @@ def op_slice_multi(run, ctx):
     sub = ctx.opts.get("face_index")
     kx = {"subset": "yes" if sub is not None else "no"}
     orc = C.SliceOracle(ctx.V, ctx.F, ctx.planes, faces=sub)
-    if orc.min_gap < GAP:
+    if orc.min_gap < ctx.gap_abs:
         run.skip("multi-plane: an intermediate cut vertex falls inside the threshold band of a later plane")
         return
     for i in range(len(ctx.planes)):
@@ -1051,7 +1261,7 @@ def op_cap_multi(run, ctx):
     engine = ctx.opts.get("engine")
     route = "slice_plane:cap:multi"
     p1, p2 = ctx.planes[0], ctx.planes[1]
-    if C.SliceOracle(ctx.V, ctx.F, [p1, p2]).min_gap < GAP:
+    if C.SliceOracle(ctx.V, ctx.F, [p1, p2]).min_gap < ctx.gap_abs:
         run.skip("multi-plane: an intermediate cut vertex falls inside the threshold band of a later plane")
         return
     ref = np.array([0.37, -0.21, 0.11])
@@ -1091,26 +1301,82 @@ OPS = {
 }
 
 
-def execute(run, case, record=True):
+def _relation(step, earlier):
+    """
+    Structural relation of a step of a history to the steps before it (key part): for a
+    parallel-plane step the relation to the latest earlier parallel-plane step, else the
+    operation that ran just before.
+    """
+    if step["op"] == "multiplane":
+        for prev in reversed(earlier):
+            if prev["op"] != "multiplane":
+                continue
+            a, b = plane_from_record(step["planes"][0]), plane_from_record(prev["planes"][0])
+            if a.n != b.n:
+                return "after_multiplane_other_normal"
+            off = sum(a.n[i] * (a.o[i] - b.o[i]) for i in range(3))
+            if off != 0:
+                return "after_multiplane_same_normal_origin_at_other_offset"
+            return "after_multiplane_same_normal_origin_in_same_plane"
+    return "after_" + earlier[-1]["op"]
+
+
+def execute_history(run, case):
+    """
+    opts['steps']: cases (without the mesh) executed one after the other on ONE mesh object;
+    every step is judged exactly like a call on a fresh object - nothing a call leaves behind
+    (mesh cache, attributes) may change what a later call returns.
+    """
+    steps = case["opts"]["steps"]
+    top = Ctx(dict(case, opts={}))
+    shared = top.mesh()
+    v0, f0 = np.array(shared.vertices), np.array(shared.faces)
+    done = []
+    for k, st in enumerate(steps):
+        sub = {"op": st["op"], "mesh": case["mesh"], "planes": st["planes"], "unit": st["unit"], "opts": st.get("opts", {})}
+        hist = _relation(st, done) if done else None
+        execute(run, sub, shared=shared, hist=hist, parent=(case, k))
+        done.append(st)
+        if hist:
+            run.state("history_relation", (st["op"], hist))
+    if not (np.array_equal(v0, np.asarray(shared.vertices)) and np.array_equal(f0, np.asarray(shared.faces))):
+        run.count("history_changed_the_mesh(not judged)")
+
+
+def execute(run, case, record=True, shared=None, hist=None, parent=None):
+    if case["op"] == "history":
+        execute_history(run, case)
+        return
     ctx = Ctx(case)
+    ctx.shared, ctx.hist, ctx.parent = shared, hist, parent
     if case["op"] != "multiplane" and not gap_ok(ctx):
         run.skip("plane inside the threshold band of some vertex")
         return
-    before = len(run.violations)
     OPS[case["op"]](run, ctx)
     if record:
         meets = any(
             (0 in ctx.mp(i).sv) or ((1 in ctx.mp(i).sv) and (-1 in ctx.mp(i).sv)) for i in range(len(ctx.planes))
         )
+        cls = ""
+        if ctx.sexp:
+            cls += ":small_scale"
+        if ctx.nexp:
+            cls += ":normal_tiny" if ctx.nexp < 0 else ":normal_huge"
+        if ctx.opts.get("subset_as") == "mask":
+            cls += ":bool_mask"
+        if hist:
+            cls += ":warm_object"
         run.case(
-            "%s:%s:%s" % (case["op"], ctx.mclass, ctx.placement()),
-            case["op"], sorted(case["opts"].items()), case["unit"], ctx.V, ctx.F,
+            "%s:%s:%s%s" % (case["op"], ctx.mclass, ctx.placement(), cls),
+            case["op"], sorted(case["opts"].items()), case["unit"], ctx.V, ctx.F, ctx.sexp, hist,
             [(r["n"], r["o"]) for r in case["planes"]],
             nontrivial=meets,
             sample=case if (run.evaluations % 701 == 0) else None,
         )
         run.state("placement_x_mesh", (ctx.placement(), ctx.mclass))
         run.state("op_x_placement", (case["op"], ctx.placement()))
+        if ctx.nexp:
+            run.state("normal_length_class", (case["op"], ctx.nexp, "band_swallows_vertices" if ctx.coarse and "band" in ctx.coarse[0] else "band_clear"))
 
 
 # ---------------------------------------------------------------------------- workload
@@ -1137,10 +1403,67 @@ def planes_for_mesh(run, V, F, n_general, n_special):
     return out
 
 
+def multiplane_case(rng, tag, V, F, rep, quick, n=None, o=None, unit=None, sexp=0):
+    """Parallel planes at exact vertex heights, between them and outside; integer-length normal."""
+    if n is None:
+        n = INT_LENGTH_NORMALS[int(rng.integers(len(INT_LENGTH_NORMALS)))]
+        n = tuple(int(c) * int(s) for c, s in zip(n, rng.choice([-1, 1], size=3)))
+    L = _L(n)
+    if o is None:
+        o = tuple(Fr(int(c)) for c in V[int(rng.integers(len(V)))]) if rep % 2 else (Fr(1, 4), Fr(-3, 8), Fr(5, 16))
+    hv = sorted({sum(Fr(int(n[i])) * (Fr(int(v[i])) - o[i]) for i in range(3)) / L for v in V})
+    hs = list(hv)
+    hs += [(a + b) / 2 for a, b in zip(hv[:-1], hv[1:])]
+    hs += [hv[0] - 1, hv[-1] + Fr(1, 2)]
+    order = rng.permutation(len(hs))
+    hs = [hs[i] for i in order][: (10 if quick else 24)]
+    return make_case("multiplane", tag, V, F, [plane_record(n, o, "parallel")], unit=bool(rep % 2) if unit is None else unit,
+                     sexp=sexp, heights=["%d/%d" % (h.numerator, h.denominator) for h in hs])
+
+
+def history_case(rng, tag, V, F, planes, closed, mclass, quick):
+    """
+    Several calls on one mesh object.  The parallel-plane calls share one (bit-identical) normal
+    while the origin moves along the normal, then inside its plane; another normal and the
+    single-plane operations are interleaved, so every kind of call also runs on a warm object.
+    """
+    n = INT_LENGTH_NORMALS[int(rng.integers(len(INT_LENGTH_NORMALS)))]
+    n = tuple(int(c) * int(s) for c, s in zip(n, rng.choice([-1, 1], size=3)))
+    L = _L(n)
+    unit = bool(rng.integers(2))
+    o1 = tuple(Fr(int(c)) for c in V[int(rng.integers(len(V)))]) if int(rng.integers(2)) else (Fr(1, 4), Fr(-3, 8), Fr(5, 16))
+    k = Fr(int(rng.choice([-5, -3, -1, 1, 2, 3, 7])), int(rng.choice([1, 2, 4])))
+    o2 = tuple(o1[i] + n[i] * k / L for i in range(3))  # k along the unit normal
+    w = _icross(n, _rand_n(rng))
+    o3 = tuple(o2[i] + w[i] for i in range(3)) if any(w) else o2  # same plane as o2
+    n2 = INT_LENGTH_NORMALS[int(rng.integers(len(INT_LENGTH_NORMALS)))]
+
+    def strip(c):
+        return {"op": c["op"], "planes": c["planes"], "unit": c["unit"], "opts": c["opts"]}
+
+    def single(op, **opts):
+        cls, pn, po = planes[int(rng.integers(len(planes)))]
+        return {"op": op, "planes": [plane_record(pn, po, cls)], "unit": bool(rng.integers(2)), "opts": opts}
+
+    steps = [strip(multiplane_case(rng, tag, V, F, 0, quick, n=n, o=o1, unit=unit))]
+    steps.append(single("section"))
+    steps.append(strip(multiplane_case(rng, tag, V, F, 0, quick, n=n, o=o2, unit=unit)))
+    steps.append(single("slice", route="slice_plane"))
+    steps.append(strip(multiplane_case(rng, tag, V, F, 0, quick, n=n, o=o3, unit=unit)))
+    steps.append(single("mesh_plane"))
+    if n2 != n:
+        steps.append(strip(multiplane_case(rng, tag, V, F, 0, quick, n=n2, o=o1, unit=unit)))
+    if closed and mclass != "overlapping":
+        steps.append(single("cap", engine=ENGINES[int(rng.integers(3))]))
+    steps.append(strip(multiplane_case(rng, tag, V, F, 0, quick, n=n, o=o1, unit=unit)))
+    steps.append(single("section"))
+    return make_case("history", tag, V, F, [], unit=unit, steps=steps)
+
+
 def workload(run):
     rng = run.rng
     quick = run.tier == "quick"
-    n_general, n_special = (10, 24) if quick else (30, 60)
+    n_general, n_special = (9, 23) if quick else (30, 63)
     mesh_index = 0
     for tag, V, F in mesh_catalogue(run):
         mesh_index += 1
@@ -1161,11 +1484,15 @@ def workload(run):
             for roll in range(3):
                 execute(run, make_case("mesh_plane", tag, V, F, [rec], unit=unit, roll=roll))
             if len(F) > 2:
+                # face subsets: sorted / permuted integer indices, or the same subset as a boolean mask
                 k = int(rng.integers(1, len(F)))
                 local = sorted(int(i) for i in rng.choice(len(F), size=k, replace=False))
                 if pi % 3 == 0:
                     local = [int(i) for i in rng.permutation(local)]
-                execute(run, make_case("mesh_plane", tag, V, F, [rec], unit=unit, local=local))
+                how = {"subset_as": "mask"} if pi % 4 == 1 else {}
+                execute(run, make_case("mesh_plane", tag, V, F, [rec], unit=unit, local=local, **how))
+                if pi % 2:
+                    execute(run, make_case("section", tag, V, F, [rec], unit=unit, local=local, **how))
             execute(run, make_case("section", tag, V, F, [rec], unit=unit))
             # slices without cap: the method and the function, all rotations
             for roll in range(3):
@@ -1175,7 +1502,8 @@ def workload(run):
                 k = int(rng.integers(1, len(F)))
                 sub = sorted(int(i) for i in rng.choice(len(F), size=k, replace=False))
                 route = ("slice_plane", "slice_faces_plane")[pi % 4 // 2]
-                execute(run, make_case("slice", tag, V, F, [rec], unit=unit, route=route, face_index=sub))
+                how = {"subset_as": "mask"} if pi % 8 in (2, 4) else {}
+                execute(run, make_case("slice", tag, V, F, [rec], unit=unit, route=route, face_index=sub, **how))
             # several planes at once
             if pi % 3 == 0 and pi + 2 < len(planes):
                 recs = [rec] + [plane_record(planes[pi + j][1], planes[pi + j][2], planes[pi + j][0]) for j in (1, 2)][: 1 + pi % 2]
@@ -1187,27 +1515,39 @@ def workload(run):
                     execute(run, make_case("slice_multi", tag, V, F, recs, unit=unit, face_index=sub))
             # caps: watertight solids only
             if closed and mclass != "overlapping":
-                eng = ENGINES[pi % 3] if pi % 4 else None
-                execute(run, make_case("cap", tag, V, F, [rec], unit=unit, engine=eng, roll=pi % 3))
+                if cls == "near_vertex":
+                    # cut points a few microns apart on the cap outline: every engine
+                    for eng in (None,) + ENGINES:
+                        execute(run, make_case("cap", tag, V, F, [rec], unit=unit, engine=eng, roll=pi % 3))
+                else:
+                    eng = ENGINES[pi % 3] if pi % 4 else None
+                    execute(run, make_case("cap", tag, V, F, [rec], unit=unit, engine=eng, roll=pi % 3))
                 if mclass == "convex" and pi % 4 == 1 and pi + 1 < len(planes):
                     rec2 = plane_record(planes[pi + 1][1], planes[pi + 1][2], planes[pi + 1][0])
                     execute(run, make_case("cap_multi", tag, V, F, [rec, rec2], unit=unit, engine=ENGINES[(pi // 4) % 3]))
             elif closed:
                 run.skip("cap on self-intersecting (overlapping) shells: not a solid")
+            # the same plane given by a normal of another length (integer normal x 2**e, never unitized)
+            if pi % 4 == 3 and cls != "near_vertex":
+                e = NORMAL_EXPS[(pi // 4) % len(NORMAL_EXPS)]
+                execute(run, make_case("mesh_plane", tag, V, F, [rec], unit=False, nexp=e))
+                execute(run, make_case("section", tag, V, F, [rec], unit=False, nexp=e))
+                route = ("slice_plane", "slice_faces_plane")[(pi // 4) % 2]
+                execute(run, make_case("slice", tag, V, F, [rec], unit=False, nexp=e, route=route))
+                if closed and mclass != "overlapping":
+                    execute(run, make_case("cap", tag, V, F, [rec], unit=False, nexp=e, engine=None))
+            # the same mesh at a scale where its features are smaller than the path merge grid
+            if pi % 4 == 2 and cls != "near_vertex":
+                execute(run, make_case("mesh_plane", tag, V, F, [rec], unit=unit, sexp=SMALL_SEXP))
+                execute(run, make_case("section", tag, V, F, [rec], unit=unit, sexp=SMALL_SEXP))
         # parallel planes: vertex heights and heights between them
         for rep in range(2 if quick else 4):
-            n = INT_LENGTH_NORMALS[int(rng.integers(len(INT_LENGTH_NORMALS)))]
-            n = tuple(int(c) * int(s) for c, s in zip(n, rng.choice([-1, 1], size=3)))
-            L = _L(n)
-            o = tuple(Fr(int(c)) for c in V[int(rng.integers(len(V)))]) if rep % 2 else (Fr(1, 4), Fr(-3, 8), Fr(5, 16))
-            hv = sorted({sum(Fr(int(n[i])) * (Fr(int(v[i])) - o[i]) for i in range(3)) / L for v in V})
-            hs = list(hv)
-            hs += [(a + b) / 2 for a, b in zip(hv[:-1], hv[1:])]
-            hs += [hv[0] - 1, hv[-1] + Fr(1, 2)]
-            order = rng.permutation(len(hs))
-            hs = [hs[i] for i in order][: (10 if quick else 24)]
-            execute(run, make_case("multiplane", tag, V, F, [plane_record(n, o, "parallel")], unit=bool(rep % 2),
-                                   heights=["%d/%d" % (h.numerator, h.denominator) for h in hs]))
+            execute(run, multiplane_case(rng, tag, V, F, rep, quick))
+        execute(run, multiplane_case(rng, tag, V, F, mesh_index, quick, sexp=SMALL_SEXP))
+        # histories: several calls on one mesh object
+        for rep in range(1 if quick else 2):
+            if planes:
+                execute(run, history_case(rng, tag, V, F, planes, closed, mclass, quick))
         run.state("mesh_class", mclass)
 
     # sub-claims whose sign pattern / rotation was never observed are inconclusive
@@ -1219,6 +1559,9 @@ def workload(run):
     for eng in ENGINES + ("None",):
         if eng not in run.states.get("cap_engine", set()):
             run.inconclusive("cap engine %s never exercised" % eng)
+    for name, need in (("history_relation", 3), ("path_zone", 2), ("normal_length_class", 2)):
+        if len(run.states.get(name, set())) < need:
+            run.inconclusive("input class %s: fewer than %d states observed" % (name, need))
 
 
 def replay(run, case):
